@@ -1256,7 +1256,7 @@ func runC17(r *core.Run) {
 		return p
 	}
 	defer func() { simhook.YieldFn = nil; simhook.PermFn = nil }()
-	sch.Off = true
+	sch.Off.Store(true)
 	for _, n := range []string{"A", "B", "C"} {
 		w.accts = append(w.accts, w.newAcct(n))
 	}
@@ -1305,7 +1305,7 @@ func runC17(r *core.Run) {
 		w.clients = append(w.clients, c)
 	}
 	synctest.Wait()
-	sch.Off = false
+	sch.Off.Store(false)
 	w.hmu.Lock()
 	defer func() {
 		w.hmu.Unlock()
